@@ -220,7 +220,7 @@ SPEC = {
         "elab_rejects_assign_to_rvalue_form", "elab_rejects_increment_of_rvalue_form",
         "assignment_operands", "binary_operands_equal", "binop_rules",
         "elab_assign_exact", "elab_arith_exact", "elab_call_args_exact",
-        "elab_out_args_are_lvalues", "out_arg_not_converted", "elab_arith_vector_kind_concrete"]] + [TX + n for n in [
+        "elab_out_args_are_lvalues", "out_arg_not_converted", "elab_arith_vector_kind_concrete", "elab_tern_vector_kind_concrete"]] + [TX + n for n in [
         # the extended language (swizzles, members, subscripts, constructors, intrinsic functions, statements)
         "elab_sound", "elab_debug_check_redundant", "elab_stmt_sound", "ids_in_range",
         "elab_rejects_const_write", "elab_rejects_rvalue_write", "elab_rejects_rvalue_out_arg",
